@@ -14,9 +14,10 @@ import Driver.CorrOps
 import Driver.DetOps
 import Driver.SerOps
 import Driver.RewriteOps
+import Driver.ConvOps
 open Lean Driver
 
-def dispatch (op : String) (j : Json) : Except String Json :=
+def dispatch1 (op : String) (j : Json) : Except String Json :=
   match op with
   | "cond.parse" => condParse j
   | "b64.case" => b64Case j
@@ -33,6 +34,7 @@ def dispatch (op : String) (j : Json) : Except String Json :=
   | "coll.check" => collCheck j
   | "coll.convert" => collConvert j
   | "gate.eval" => gateEval j
+  | "gate.case" => GateCase.gateCase j
   | "pipe.compose" => pipeCompose j
   | "pipe.sys" => pipeSys j
   | "filter.applies" => filterApplies j
@@ -46,8 +48,18 @@ def dispatch (op : String) (j : Json) : Except String Json :=
   | "ser.case" => serCase j
   | "ser.obj" => serObj j
   | "rewrite.case" => rewriteCase j
+  | "conv.run" => convRun j
   | "ping" => pure (Json.mkObj [("pong", true)])
   | _ => throw s!"unknown op {op}"
+
+/-- `multi`: several requests about one case in one line (`parts`), answered in order -/
+def dispatch (op : String) (j : Json) : Except String Json :=
+  match op with
+  | "multi" => do
+      let parts ← (← j.getObjVal? "parts").getArr?
+      let rs ← parts.toList.mapM fun p => do dispatch1 (← p.getObjValAs? String "op") p
+      pure (Json.mkObj [("parts", .arr rs.toArray)])
+  | _ => dispatch1 op j
 
 def handleLine (line : String) : String :=
   match Json.parse line with
